@@ -137,7 +137,7 @@ func panicSig(msg string) string {
 		l = strings.TrimSpace(l)
 		if strings.HasPrefix(l, "simworld/goplugin") && !strings.Contains(l, "simk.") {
 			frame = l
-			if i := strings.Index(frame, "("); i > 0 {
+			if i := strings.LastIndex(frame, "("); i > 0 {
 				frame = frame[:i]
 			}
 			frame = strings.TrimPrefix(frame, "simworld/goplugin")
